@@ -51,6 +51,8 @@ template <class T> static void run_T(Choice &c, Ctx &cx)
     LD uu = Consts<T>::u();
     bool notran_eff = o.nr ? (o.trans != NOTRANS) : (o.trans == NOTRANS);
     trans_t trant = o.nr ? (o.trans == NOTRANS ? TRANS : NOTRANS) : o.trans;
+    // row storage with Trans = CONJ: A^H x = b is conj(AA) x = b, solved as AA conj(x) = conj(b)
+    const bool conj_nr = cplx && o.nr && o.trans == CONJ;
     bool rowequ = e.rowequ(), colequ = e.colequ();
     const std::vector<R> *xs = notran_eff ? (colequ ? &e.Cs : nullptr) : (rowequ ? &e.Rs : nullptr);   // X = Y .* xs
     int steps = e.stat.RefineSteps;
@@ -60,13 +62,13 @@ template <class T> static void run_T(Choice &c, Ctx &cx)
             if (!ok) break;
             // X must be the unrefined solution: ?gstrs on the (scaled) right-hand side, then the documented unscaling
             std::vector<T> Y((size_t)n * nrhs);
-            for (int j = 0; j < nrhs; ++j) for (int i = 0; i < n; ++i) Y[(size_t)j * n + i] = e.B[(size_t)j * ldb + i];   // B on exit is the scaled rhs
+            for (int j = 0; j < nrhs; ++j) for (int i = 0; i < n; ++i) { T v = e.B[(size_t)j * ldb + i]; if (conj_nr) v = to_T<T>(Val{(double)std::real(widen<T>(v)), -(double)std::imag(widen<T>(v))}); Y[(size_t)j * n + i] = v; }   // B on exit is the scaled rhs
             DenseView<T> Yv; Yv.create(n, nrhs, Y.data(), n); int sinfo = -999;
             bool ab = guarded([&] { Tr<T>::gstrs(trant, &e.L, &e.U, e.perm_c.data(), e.perm_r.data(), &Yv.X, &e.stat, &sinfo); });
             Yv.destroy();
             if (ab) { cx.fail("abort", fmt("gstrs: library called ABORT: %s", vf_abort_msg())); ok = false; break; }
             for (int j = 0; j < nrhs && ok; ++j) for (int i = 0; i < n && ok; ++i) {
-                T want = Y[(size_t)j * n + i]; if (xs) want = want * (*xs)[i];
+                T want = Y[(size_t)j * n + i]; if (conj_nr) want = to_T<T>(Val{(double)std::real(widen<T>(want)), -(double)std::imag(widen<T>(want))}); if (xs) want = want * (*xs)[i];
                 if (std::memcmp(&want, &e.X[(size_t)j * ldx + i], sizeof(T)) != 0) { cx.fail("unrefined-x", fmt("IterRefine=NOREFINE: X(%d,%d)=%s differs from the plain triangular solve of the returned factors, %s", i, j, w_str(widen<T>(e.X[(size_t)j * ldx + i])).c_str(), w_str(widen<T>(want)).c_str())); ok = false; }
             }
             nt = e.equed[0] != 'N' || o.trans != NOTRANS;
@@ -89,7 +91,7 @@ template <class T> static void run_T(Choice &c, Ctx &cx)
                 if (bi == W(0)) zero_comp = true;
                 W r = bi; LD den = abs1(bi);
                 for (int k = 0; k < n; ++k) {
-                    W a = trant == NOTRANS ? AAeq(i, k) : (trant == CONJ ? conj_w(AAeq(k, i)) : AAeq(k, i));
+                    W a = trant == NOTRANS ? (conj_nr ? conj_w(AAeq(i, k)) : AAeq(i, k)) : (trant == CONJ ? conj_w(AAeq(k, i)) : AAeq(k, i));
                     if (a == W(0)) continue;
                     r -= a * y[k]; den += abs1(a) * abs1(y[k]);
                 }
